@@ -88,13 +88,7 @@ class FIXContainer:
             DuplicatedTagError: when trying to set existing tag
             FIXMessageError: tag value is not convertible to int
         """
-        try:
-            # tag also might be an FTag enum (so cast to str first)
-            int(str(tag))
-        except ValueError:
-            raise FIXMessageError("Tags must be only integers")
-
-        t = str(tag)
+        t = self._check_tag(tag)
 
         if _isclass(value):
             # Case for setting tags as errors (allow overwriting by Exception)
@@ -106,6 +100,15 @@ class FIXContainer:
             value = str(value)
 
         self.tags[t] = value
+
+    @staticmethod
+    def _check_tag(tag: str | int | FTag) -> str:
+        try:
+            # tag also might be an FTag enum (so cast to str first)
+            int(str(tag))
+        except ValueError:
+            raise FIXMessageError("Tags must be only integers")
+        return str(tag)
 
     def get(self, tag: str | int | FTag, default=TagNotFoundError) -> str:
         """Get tag value.
@@ -167,7 +170,7 @@ class FIXContainer:
         Raises:
             FIXMessageError: incorrect group type/value
         """
-        tag = str(tag)
+        tag = self._check_tag(tag)
 
         if isinstance(group, dict):
             group = FIXContainer(group)
@@ -176,6 +179,8 @@ class FIXContainer:
 
         if tag in self:
             group_container = self.tags[tag]
+            if not isinstance(group_container, _FIXRepeatingGroupContainer):
+                raise FIXMessageError(f"{tag=} is a simple tag, not a group")
             group_container.add_group(group, index)
         else:
             group_container = _FIXRepeatingGroupContainer()
@@ -193,7 +198,7 @@ class FIXContainer:
             DuplicatedTagError: group with the same tag already exists
             FIXMessageError: incorrect group type/value
         """
-        tag = str(tag)
+        tag = self._check_tag(tag)
 
         if tag in self:
             raise DuplicatedTagError(f"group with {tag=} already exists")
@@ -350,7 +355,7 @@ class FIXContainer:
         """
         # if our string representation looks the same, the objects are equivalent
         if isinstance(other, FIXContainer):
-            return self.__str__() == other.__str__()
+            return self._content() == other._content()
         elif isinstance(other, dict):
             ignore_tags = {
                 FTag.BeginString,
@@ -370,6 +375,8 @@ class FIXContainer:
                 return False
 
             for t, v in other.items():
+                if str(t) in ignore_tags:
+                    continue
                 if self.is_group(t):
                     raise FIXMessageError(
                         "fix message __eq__ (dict) supports only simple tags, got group"
@@ -383,6 +390,18 @@ class FIXContainer:
             return True
         else:
             return False
+
+    def _content(self) -> tuple:
+        """Tags / values / groups structure (for comparison)."""
+        return tuple(
+            (
+                t,
+                tuple(g._content() for g in v.groups)
+                if isinstance(v, _FIXRepeatingGroupContainer)
+                else v,
+            )
+            for t, v in self.tags.items()
+        )
 
     __repr__ = __str__
 
